@@ -299,29 +299,45 @@ def apply_config(spec, old, new):
 def _failed_use(spec, desc):
     """run environment 'failed_eval': an offline object first evaluates ANOTHER log in which one sensor delivers None from
     some sample on; evaluate() raises half-way, the application catches the exception and goes on using the object. Nothing
-    of the failed evaluation may survive in the object (per-evaluation caches, result tables, counters are C13's business
-    and C13 opts out)."""
+    of the failed evaluation may survive in the object (per-evaluation caches, result tables; counters are C13's business
+    and C13 opts out). The damaged log is evaluated right before the first real evaluation and has, half of the time, the
+    shape of that real log (same length, same time axis)."""
     if ENV.get('failed_eval') is None or desc['cls'] not in ('dt_off', 'ct_off'):
         return
-    import random
-    frng = random.Random(ENV['failed_eval'])
     vs = [v for v, ty in desc.get('vars', []) if ty == 'float']
-    if not vs:
+    if vs:
+        spec._verif_fail_first = (ENV['failed_eval'], desc['cls'], vs)
+
+
+def _do_failed_use(spec, times=None, signals=None):
+    pend = getattr(spec, '_verif_fail_first', None)
+    if pend is None:
         return
+    spec._verif_fail_first = None
+    import random
+    seed, cls, vs = pend
+    frng = random.Random(seed)
     FAILED_USES[0] += 1
-    n = frng.randint(2, 6)
-    victim = vs[frng.randrange(len(vs))]
-    at = frng.randrange(n)
     lat = [x * 0.5 for x in range(-8, 9)]
+    same_shape = frng.random() < 0.5
+    victim = vs[frng.randrange(len(vs))]
     try:
-        if desc['cls'] == 'dt_off':
+        if cls == 'dt_off':
+            axis = list(times) if (same_shape and times is not None and len(times) >= 1) else list(range(frng.randint(2, 6)))
+            n = len(axis)
+            at = frng.randrange(n)
             data = dict((v, [lat[frng.randrange(len(lat))] for _ in range(n)]) for v in vs)
             data[victim] = [(None if i >= at else x) for i, x in enumerate(data[victim])]
-            dt_evaluate(spec, list(range(n)), data)
+            api('evaluate', spec.evaluate, dt_dataset(axis, data))
         else:
-            sig = dict((v, [[float(i), lat[frng.randrange(len(lat))]] for i in range(n)]) for v in vs)
+            if same_shape and signals:
+                sig = dict((v, [[s[0], lat[frng.randrange(len(lat))]] for s in signals.get(v, [[0.0, 0.0]])]) for v in vs)
+            else:
+                n = frng.randint(2, 6)
+                sig = dict((v, [[float(i), lat[frng.randrange(len(lat))]] for i in range(n)]) for v in vs)
+            at = frng.randrange(max(1, len(sig[victim])))
             sig[victim] = [[t, (None if i >= at else x)] for i, (t, x) in enumerate(sig[victim])]
-            ct_evaluate(spec, sig)
+            api('evaluate', spec.evaluate, *[[v, sig[v]] for v in sorted(sig)])
     except (ApiCrash, NumericOverflow):
         pass
 
@@ -445,6 +461,7 @@ def dt_evaluate(spec, times, data, order=None):
     if getattr(spec, '_verif_structs', None):
         data = dict((v, [_wrap(spec, v, x) for x in data[v]]) for v in data)
     ds = dt_dataset(times, data, order)
+    _do_failed_use(spec, times=ds['time'])
     twin_ds = lambda: dict((k, ([_other(x) for x in c] if k != 'time' else list(c))) for k, c in ds.items())
     if not getattr(spec, '_verif_structs', None):
         _twin(spec, lambda tw: api('evaluate', tw.evaluate, twin_ds()))
@@ -464,6 +481,7 @@ def dt_update(spec, t, inputs):
 
 def ct_evaluate(spec, signals, order=None):
     args = [[v, [[s[0], _wrap(spec, v, s[1])] for s in signals[v]]] for v in (order or sorted(signals))]
+    _do_failed_use(spec, signals=signals)
     twin_args = lambda: [[v, [[s[0], _other(s[1])] for s in signals[v]]] for v in (order or sorted(signals))]
     if not getattr(spec, '_verif_structs', None):
         _twin(spec, lambda tw: api('evaluate', tw.evaluate, *twin_args()))
